@@ -472,6 +472,39 @@ def r6_counts(repo: Repo, rep):
                 w = bad[0] if bad else None
                 rep.check(R, not bad, fi.site(), fi.fq, "replicated parameters / motion values have as many rows as the sampled points, for all (n, k)",
                           f"fails for {len(bad)} of {info} grid points, e.g. n={w[0]}, k={w[1]}: {w[2]}" if w else f"{info} grid points", "rows: " + _abstract_counts(ret))
+    # --- constant product: the second factor's points and the replicated parameters pair up row by row
+    pd = repo.cls(f"{OPS}.product.ProductDomain")
+    fi = pd.methods.get("sample_random_uniform")
+    if fi is None:
+        raise AnalysisError("ProductDomain.sample_random_uniform vanished")
+    rep.saw(fi)
+    n_prod = 0
+    for p in paths(fi.node):
+        if p.ret is RAISE or p.ret is None:
+            continue
+        gs = {dump(g): pol for g, pol, k in p.guards if k == "if"}
+        if gs.get("self._is_constant") is not True or gs.get("n is None") is not False:
+            continue
+        acalls = [c for e in p.events if e.value is not None for c in ast.walk(e.value)
+                  if isinstance(c, ast.Call) and dump(c.func) == "self.domain_a.sample_random_uniform"]
+        if not acalls:
+            continue
+        n_prod += 1
+        prm = kwarg(acalls[0], "params", 2)
+
+        def checks(ev, n, k, prm=prm):
+            r = ev.rows(prm)
+            return None if r == n * max(k, 1) else f"first factor sampled for {r} rows, expected n*max(k,1) = {n * max(k, 1)}"
+        bad, info = _eval_grid(fi, None, checks, rep, R, shape_attrs)
+        if bad is None:
+            rep.undecided(R, fi.site(), fi.fq, "row counts of the constant product evaluable", info)
+        else:
+            w = bad[0] if bad else None
+            rep.check(R, not bad, fi.site(), fi.fq, "second-factor points and replicated parameters have n*max(k,1) rows each (joined row by row)",
+                      f"fails for {len(bad)} of {info} grid points, e.g. n={w[0]}, k={w[1]}: {w[2]}" if w else f"{info} grid points", "product rows")
+        break
+    if n_prod == 0:
+        rep.undecided(R, fi.site(), fi.fq, "the constant-product sampling path", "not found")
     # --- n == 1 helpers
     helper = repo.module(f"{OPS}.sampler_helper")
     for name in ("_random_points_if_n_eq_1", "_random_boundary_points_if_n_eq_1"):
@@ -708,6 +741,8 @@ def r9_motion_params(repo: Repo, rep):
 
 
 def run(repo: Repo, rep):
+    from .c15 import r2_adaptive  # adaptive samplers replace rows in place under one mask: the row <-> parameter-row blocks stay where they are
+    r2_adaptive(repo, rep)
     r9_motion_params(repo, rep)
     r1_replication(repo, rep)
     r2_layout_pairing(repo, rep)
